@@ -633,6 +633,15 @@ class Scen:
             self.do_tree({"path": p, "content": c})
         for d in self.spec.get("dirs", []):
             os.makedirs(os.path.join(self.root, d), exist_ok=True)
+        # a directory reached only through a symbolic link: recorded by start, stop and run alike (follow_symlink_dirs=True)
+        os.makedirs(os.path.join(self.root, "src"), exist_ok=True)
+        real = os.path.join(os.path.dirname(self.root), "linked-target")
+        shutil.rmtree(real, ignore_errors=True)
+        os.makedirs(real)
+        with open(os.path.join(real, "via-link.txt"), "w") as f:
+            f.write("reached through a directory link\n")
+        if not os.path.lexists(os.path.join(self.root, "src", "dirlink")):
+            os.symlink(real, os.path.join(self.root, "src", "dirlink"))
         old = os.getcwd()
         os.chdir(self.root)
         try:
